@@ -185,6 +185,15 @@ pub fn run(path: &str) -> i32 {
                 pollmc::c08_stream::<V5>(&ctx, &stream, &ends)
             }
         }
+        "sub-decoder" => {
+            let b = unhex(case["bytes"].as_str().unwrap());
+            let hd = case["hd"].as_u64().unwrap() as u8;
+            if v3 {
+                bytes::c03_sub::<V3>(&ctx, &b, hd)
+            } else {
+                bytes::c03_sub::<V5>(&ctx, &b, hd)
+            }
+        }
         "oversize" => values::c02_oversize_pub(&ctx),
         "conversion" => faults::c14_conversions_pub(&ctx),
         "protocol-new" => faults::c13_protocol_new(&ctx, &unhex(case["name"].as_str().unwrap()), case["level"].as_u64().unwrap() as u8),
